@@ -37,6 +37,9 @@ type Suite struct {
 	CPUSeconds int
 	// Serial: all cases of the suite run in one worker, in order.
 	Serial bool
+	// Batch, if > 0, fixes the number of cases per worker process (1 = every
+	// case in a process of its own: for cases expected to kill the process).
+	Batch int
 }
 
 // Check is everything that decides one property.
